@@ -79,6 +79,10 @@ pub trait Prop: Copy + Send + Sync + 'static {
     fn stack_size(&self) -> usize {
         2 * 1024 * 1024
     }
+    /// true: a run may kill its process (stack overflow, abort), so the parent never executes a case itself
+    fn isolated(&self) -> bool {
+        false
+    }
     /// extra top-level coverage keys derived from merged counters
     fn extra_coverage(&self, _counters: &BTreeMap<String, u64>) -> Value {
         json!({})
@@ -144,6 +148,76 @@ pub fn execute<P: Prop>(prop: &P, hash_seed: u64, case: &P::Case, record: bool) 
             r.violate("harness-panic", "run thread died without a report".into());
             r
         }
+    }
+}
+
+/// Execute in a throw-away child process (`ippsim exec1`): used by the parent for properties whose runs may kill
+/// the process. A child killed by a signal becomes a `process-died:<signal>` violation of that case.
+pub fn execute_isolated<P: Prop>(prop: &P, hash_seed: u64, case: &P::Case, record: bool) -> RunReport {
+    static N: std::sync::atomic::AtomicU64 = std::sync::atomic::AtomicU64::new(0);
+    let n = N.fetch_add(1, std::sync::atomic::Ordering::SeqCst);
+    let dir = verif_root().join("work").join(format!("exec1-{}", std::process::id()));
+    let _ = std::fs::create_dir_all(&dir);
+    let path = dir.join(format!("case-{n}.json"));
+    let env = Envelope {
+        format: FORMAT.to_string(),
+        property: prop.id().to_string(),
+        tier: Tier::Quick,
+        seed: 0,
+        run: 0,
+        hash_seed,
+        case: case.clone(),
+        violation: None,
+        minimised: false,
+        shrink_steps: 0,
+    };
+    std::fs::write(&path, serde_json::to_vec(&env).expect("envelope")).expect("write case");
+    let out = std::process::Command::new(std::env::current_exe().expect("exe"))
+        .arg("exec1")
+        .arg(prop.id())
+        .arg(&path)
+        .arg(if record { "record" } else { "quiet" })
+        .stdin(std::process::Stdio::null())
+        .stderr(std::process::Stdio::null())
+        .output()
+        .expect("spawn exec1");
+    let _ = std::fs::remove_file(&path);
+    let mut r = RunReport::default();
+    if !out.status.success() {
+        let class = format!("process-died:{}", signal_name(&out.status));
+        r.violate(&class, format!("the isolated process executing this case was killed ({class})"));
+        return r;
+    }
+    let v: Value = serde_json::from_slice(&out.stdout).unwrap_or(Value::Null);
+    if let Some(viol) = v.get("violation").filter(|x| !x.is_null()) {
+        r.violation = serde_json::from_value(viol.clone()).ok();
+    }
+    r.trace_hash = v.get("trace_hash").and_then(|x| x.as_u64()).unwrap_or(0);
+    r.nontrivial = v.get("nontrivial").and_then(|x| x.as_bool()).unwrap_or(false);
+    r.reduced = v.get("reduced").filter(|x| !x.is_null()).cloned();
+    r.log = v.get("log").filter(|x| !x.is_null()).cloned();
+    r
+}
+
+pub fn exec1_entry<P: Prop>(prop: &P, path: &Path, record: bool) -> i32 {
+    let env: Envelope<P::Case> = match read_replay(path) {
+        Ok(e) => e,
+        Err(e) => {
+            eprintln!("harness error: {e}");
+            return 2;
+        }
+    };
+    let rep = execute(prop, env.hash_seed, &env.case, record);
+    let doc = json!({"violation": rep.violation, "trace_hash": rep.trace_hash, "nontrivial": rep.nontrivial, "reduced": rep.reduced, "log": rep.log});
+    println!("{}", serde_json::to_string(&doc).unwrap());
+    0
+}
+
+pub fn execute_any<P: Prop>(prop: &P, hash_seed: u64, case: &P::Case, record: bool) -> RunReport {
+    if prop.isolated() {
+        execute_isolated(prop, hash_seed, case, record)
+    } else {
+        execute(prop, hash_seed, case, record)
     }
 }
 
@@ -501,16 +575,19 @@ pub fn minimise<P: Prop>(prop: &P, env: &Envelope<P::Case>, budget: u64) -> Enve
     };
     let mut best = env.clone();
     let mut steps = 0u64;
-    if class == "hang" || class.starts_with("process-died") {
-        // every re-execution would cost a watchdog period / a process; reported unminimised
+    let t0 = Instant::now();
+    // isolated properties re-execute in a fresh process each time: keep the budget small
+    let budget = if prop.isolated() { budget.min(120) } else { budget };
+    if class == "hang" || std::env::var("VERIF_NO_SHRINK").is_ok() {
+        // every re-execution of a hang would cost a watchdog period; reported unminimised
         return best;
     }
     // a sweeping property can name the failing sub-run directly
-    let first = execute(prop, best.hash_seed, &best.case, false);
+    let first = execute_any(prop, best.hash_seed, &best.case, false);
     if let Some(red) = first.reduced {
         if let Ok(c) = serde_json::from_value::<P::Case>(red) {
             steps += 1;
-            let rep = execute(prop, best.hash_seed, &c, false);
+            let rep = execute_any(prop, best.hash_seed, &c, false);
             if let Some(v) = rep.violation {
                 if v.class == class {
                     best.case = c;
@@ -522,11 +599,11 @@ pub fn minimise<P: Prop>(prop: &P, env: &Envelope<P::Case>, budget: u64) -> Enve
     'outer: loop {
         let cands = prop.shrink(&best.case);
         for c in cands {
-            if steps >= budget {
+            if steps >= budget || t0.elapsed().as_secs() > 90 {
                 break 'outer;
             }
             steps += 1;
-            let rep = execute(prop, best.hash_seed, &c, false);
+            let rep = execute_any(prop, best.hash_seed, &c, false);
             if let Some(v) = rep.violation {
                 if v.class == class {
                     best.case = c;
@@ -706,9 +783,10 @@ pub fn standard_check<P: Prop>(prop: &P, o: &CheckOpts) -> i32 {
         }
         new_violations += 1;
         let raw = write_replay(env, "-raw");
-        let min = minimise(prop, env, 2000);
+        println!("  run {} violates: class={} — minimising", env.run, v.class);
+        let min = if new_violations <= 3 { minimise(prop, env, 2000) } else { env.clone() };
         // replay the minimised file's case once more before reporting it
-        let again = execute(prop, min.hash_seed, &min.case, false);
+        let again = execute_any(prop, min.hash_seed, &min.case, false);
         let (path, shown) = match again.violation {
             Some(ref v2) if v2.class == v.class => (write_replay(&min, ""), min.violation.clone().unwrap()),
             _ => (raw.clone(), v.clone()),
@@ -764,7 +842,7 @@ pub fn standard_replay<P: Prop>(prop: &P, path: &Path) -> i32 {
             return 2;
         }
     };
-    let rep = execute(prop, env.hash_seed, &env.case, true);
+    let rep = execute_any(prop, env.hash_seed, &env.case, true);
     if let Some(log) = &rep.log {
         println!("{}", serde_json::to_string_pretty(log).unwrap());
     }
